@@ -130,6 +130,17 @@ CLAIMED['C13'] = dict(
     technique="buffer-use classification, alloc/free and construct/destroy pairing on the CFG, three-valued evaluation of stream-state and terminator tests, linear guard/consumption comparison over the clang-resolved AST",
     ref="DESIGN.md section 4, C13")
 
+CLAIMED['C12'] = dict(
+    text="Structural necessary conditions, exhaustively over every writer token and reader function: every LP keyword, sense, 'free' and infinity "
+         "token and every MPS section, row sense and bound indicator the writers emit is accepted by the reader (LP keywords through a "
+         "re-implementation of the reader's pattern language, MPS tokens through strcmp literals and switch case labels) and each bound indicator "
+         "and row sense is composed with the reader arm it selects; real and rational code use the same tables; default names have one format "
+         "everywhere; the LP writer prints 17 significant digits before any number is written and MPS uses %.15; in the rational readers no "
+         "floating-point function or temporary lies between a token and its Rational (positive controls fire). Not a proof that the re-read LP is "
+         "equivalent; the dual writer is not covered.",
+    technique="writer-token vs reader-recogniser table composition, constant/precision rules and a type-directed float-detour lint over the clang-resolved AST",
+    ref="DESIGN.md section 4, C12")
+
 NA = {
     'C10': "every clause quantifies over run-time numbers (residuals at rounding level, singular vs. well-conditioned, agreement of multi-rhs solves); "
            "no structural clause is both checkable and necessary (DESIGN.md section 5)",
